@@ -197,6 +197,10 @@ def rule_S3(run: Run, prog: Program) -> int:
         for op in C19_OPERATORS:
             n += 1
             f = prog.lookup(c, op)
+            if f is None and prog.class_attr(c, op) is not None:
+                owner, val = prog.class_attr(c, op)
+                run.add("E2.S3", c.name, op, PROVEN, f"bound in the class body of {owner.name} (`{op} = {ast.unparse(val)[:30]}`)", owner.loc)
+                continue
             if f is None:
                 run.add("E2.S3", c.name, op, VIOLATION,
                         f"{c.name} has no {op}: with __array_ufunc__ in place the operator raises TypeError / falls back to ndarray semantics",
